@@ -81,22 +81,22 @@ Definition cert_obs_eqb (a b : cert_obs) : bool :=
   (t1 =? t2) && (va1 =? va2) && (vb1 =? vb2) && zlist_eqb k1 k2 && list_eqb zlist_eqb p1 p2
   && list_eqb obytes_eqb o1 o2.
 
-(* import: (consume_unknown, blob, verify calls, accepted public key blobs, subject key material ok,
+(* import: (blob, verify calls, accepted public key blobs, subject key material ok,
    accepted address lists, observed: None = KeyImportError) *)
 Definition chk_cert_import
-  (c : bool * bytes * sig_calls * list bytes * bool * list bytes * option cert_obs) : bool :=
-  let '(cu, blob, calls, pubs, kf, addrs, got) := c in
-  match cert_import (sigok_of calls) (member_of pubs) (fun _ _ => kf) (member_of addrs) cu blob with
+  (c : bytes * sig_calls * list bytes * bool * list bytes * option cert_obs) : bool :=
+  let '(blob, calls, pubs, kf, addrs, got) := c in
+  match cert_import (sigok_of calls) (member_of pubs) (fun _ _ => kf) (member_of addrs) blob with
   | ROk ci => option_eqb cert_obs_eqb (Some (cert_view ci)) got
   | RErr => match got with None => true | Some _ => false end
   | RFuel => false
   end.
 
-(* _decode_options alone: (consume_unknown, critical, is_user_table, raw, addrs, observed slots) *)
-Definition chk_dec_options (c : bool * bool * bool * bytes * list bytes * option (list (option bytes))) : bool :=
-  let '(cu, critical, ext, raw, addrs, got) := c in
+(* _decode_options alone: (critical, extension table?, raw, addrs, observed slots) *)
+Definition chk_dec_options (c : bool * bool * bytes * list bytes * option (list (option bytes))) : bool :=
+  let '(critical, ext, raw, addrs, got) := c in
   let known := if ext then user_extension_kinds else user_option_kinds in
-  match dec_options (member_of addrs) cu (length raw) known critical raw with
+  match dec_options (member_of addrs) (length raw) known critical raw with
   | ROk l => option_eqb (list_eqb obytes_eqb) (Some (opts_view l)) got
   | RErr => match got with None => true | Some _ => false end
   | RFuel => false
@@ -126,8 +126,8 @@ Definition sres_code (s : sres) : Z :=
   match s with SAccept => 0 | SReject => 1 | SValueError => 2 | SFuel => 3 end.
 
 Definition chk_sshsig
-  (c : Z * bool * bytes * bool * bytes * list Z * list as_entry * Z
+  (c : bytes * bool * bytes * list Z * list as_entry * Z
        * sig_calls * list bytes * list bytes * list (bytes * bytes) * Z) : bool :=
-  let '(want, cu, msg, ih, raw, principal, entries, now, calls, pubs, addrs, digests, got) := c in
-  sres_code (sshsig_validate (sigok_of calls) (member_of pubs) (fun _ _ => true) (member_of addrs) cu
-                             (hash_of digests) want msg ih raw principal entries now) =? got.
+  let '(msg, ih, raw, principal, entries, now, calls, pubs, addrs, digests, got) := c in
+  sres_code (sshsig_validate (sigok_of calls) (member_of pubs) (fun _ _ => true) (member_of addrs)
+                             (hash_of digests) msg ih raw principal entries now) =? got.
